@@ -30,6 +30,8 @@ SPEC['explanation'] += ' T15.negpath: on every path of pop(index) that tombstone
 SPEC['decided'] += ['negative position tested on every tombstoning path', 'raw slot enumerations filter tombstones']
 SPEC['explanation'] += " T2.add holds for every method that appends a slot (add and any bulk operation that inlines it). T9.stalelen: _cull compares the last dead interval's stop with the untrimmed length of the slot list."
 SPEC['decided'] += ['slot bookkeeping in every appender', 'untrimmed length in _cull']
+SPEC['explanation'] += ' T9.operands: update / intersection_update / difference_update consult their *others on every normal path.'
+SPEC['decided'] += ['all operands of an in-place set operation consulted']
 MANIFEST = {
     'technique': 'pairing / must-pass-through analysis on CFG paths, two-point index-space qualifier check, nesting-depth check of iterator expressions, alias-guard check',
     'text': ('Decides structural necessary conditions of C11: tombstones, index map and dead-index table are updated together and '
@@ -39,7 +41,51 @@ MANIFEST = {
 }
 
 
+def operands_consulted(ctx):
+    """T9.operands: the in-place set operations with several operands (`update`, `intersection_update`, `difference_update`)
+    consult every operand on every normal path: the `*others` tuple flows into a call (as `*others` or whole) or is iterated.
+    A membership test on the tuple (`self in others`) consults nothing -- an early exit under it drops the remaining operands."""
+    import ast
+    from rules.common import paths_of, txt, Quiet
+    prog = ctx.program
+    ci = prog.cls(CLS)
+    for name in ('update', 'intersection_update', 'difference_update'):
+        f = prog.resolve(ci, name)
+        if not hasattr(f, 'node') or f.node.args.vararg is None:
+            continue
+        var = f.node.args.vararg.arg
+        w, paths = paths_of(prog, f, recv=ci, model=Quiet(prog))
+        bad = None
+        n = 0
+        for p in paths:
+            if p.kind != 'return':
+                continue
+            n += 1
+            used = False
+            for o in p.ops:
+                if o.kind == 'call' and isinstance(o.node, ast.Call):
+                    for a in o.node.args:
+                        if (isinstance(a, ast.Starred) and txt(a.value) == var) or (isinstance(a, ast.Name) and a.id == var):
+                            used = True
+                if o.kind in ('iter_start', 'loop_iter') and o.node is not None:
+                    it = getattr(o.node, 'iter', o.node)
+                    cands = [it] + ([w.expand(o.val)] if getattr(o, 'val', None) is not None else []) + \
+                        ([w.expand(it)] if isinstance(it, ast.AST) else [])
+                    if any(isinstance(x, ast.Name) and x.id == var for c_ in cands if isinstance(c_, ast.AST) for x in ast.walk(c_)):
+                        used = True
+            from rules.common import tests_on as _to
+            empty = any((t == var and not truth) or (t in ('len(%s) == 0' % var,) and truth) or
+                        (t in ('len(%s)' % var,) and not truth) for t, truth, _o in _to(w, p))
+            if not used and not empty and bad is None:
+                bad = p
+        if n:
+            ctx.ob('T9.operands', f.fq, 'every normal path hands the operands (*%s) on to a call or iterates them (a membership test '
+                   'on the tuple consults none of them)' % var, bad is None, loc=f.loc, detail='%d paths' % n,
+                   path=bad.describe() if bad else None)
+
+
 def run(ctx):
+    operands_consulted(ctx)
     from rules.common import require_fields
     from rules.common import require_members, require_module_names
     require_members(ctx.program, 'setutils.IndexedSet', ['_get_real_index', '_get_apparent_index', '_add_dead', '_cull', '_compact', 'remove', 'pop', 'add', 'iter_slice', 'index', 'update', 'clear'])
